@@ -84,6 +84,35 @@ def _seq(it, v):
     raise A.Undecided("sequence operation on %r" % (v,))
 
 
+def m_from_elem(it, args, callee, depth):
+    """vec![x; n]"""
+    n = A.deref_all(it, args[1])
+    if not isinstance(n, int) or isinstance(n, bool) or n > 100000:
+        return NotImplemented
+    return ("array", [A.copy_val(A.deref_all(it, args[0])) for _ in range(n)])
+
+
+def m_copy_from_slice(it, args, callee, depth):
+    """dst.copy_from_slice(src): element-wise store through the destination (a window writes through to its parent); lengths must agree"""
+    dst, src = args[0], _seq(it, args[1])
+    dv = _seq(it, dst)
+    if dv is None or src is None:
+        return NotImplemented
+    if len(dv[1]) != len(src[1]):
+        raise A.Panic("copy_from_slice: source slice length (%d) does not match destination slice length (%d)" % (len(src[1]), len(dv[1])))
+    r = dst
+    while isinstance(r, tuple) and r[0] == "ref" and isinstance(it.load_ref(r), tuple) and it.load_ref(r)[0] == "ref":
+        r = it.load_ref(r)
+    for i, x in enumerate(src[1]):
+        val = A.copy_val(A.deref_all(it, x))
+        tgt = dv[1][i]
+        if len(dv) > 2 and dv[2] == "window" and isinstance(tgt, tuple) and tgt[0] == "ref":
+            it._store(tgt[1], tgt[2], list(tgt[3]), val)
+        else:
+            it._store(r[1], r[2], list(r[3]) + [{"ci": i, "ml": 0, "fe": False}], val)
+    return ("tuple", [])
+
+
 def m_vec_is_empty(it, args, callee, depth):
     v = _seq(it, args[0])
     return NotImplemented if v is None else int(len(v[1]) == 0)
@@ -492,6 +521,11 @@ MODELS = {
     "$slice::<impl [T]>::windows": m_windows(False),
     "$slice::<impl [T]>::chunks": m_windows(True, partial=True),
     "$slice::<impl [T]>::chunks_exact": m_windows(True),
+    "$slice::<impl [T]>::chunks_exact_mut": m_windows(True),
+    "$slice::<impl [T]>::chunks_mut": m_windows(True, partial=True),
+    "$slice::<impl [T]>::copy_from_slice": m_copy_from_slice,
+    "$slice::<impl [T]>::clone_from_slice": m_copy_from_slice,
+    "alloc::vec::from_elem": m_from_elem,
     "Iterator::skip": m_skip,
     "Iterator::take_while": m_take_while,
     "Iterator::reduce": m_reduce,
